@@ -331,7 +331,7 @@ def split_evals(out):
 def coq_eval_shards(name, prelude, exprs, shard_size=200, timeout=900, workers=16):
     """Evaluate Coq expressions with vm_compute.  `exprs` is a list of Coq terms (strings).
     Returns (values, error) where values is a list of parsed Python values, one per expr."""
-    d = os.path.join(BUILD, "cases")
+    d = os.path.join(BUILD, "cases", "p%d" % os.getpid())
     os.makedirs(d, exist_ok=True)
     shards = [exprs[i:i + shard_size] for i in range(0, len(exprs), shard_size)]
     files = []
@@ -352,7 +352,10 @@ def coq_eval_shards(name, prelude, exprs, shard_size=200, timeout=900, workers=1
         futs = {ex.submit(run, fn): i for i, fn in enumerate(files)}
         for fu in concurrent.futures.as_completed(futs):
             results[futs[fu]] = fu.result()
+    import shutil
     vals = []
+    if all(rc == 0 for rc, _ in results):
+        shutil.rmtree(d, ignore_errors=True)
     for i, (rc, out) in enumerate(results):
         if rc != 0:
             return None, "coqc failed on %s:\n%s" % (files[i], out[-3000:])
